@@ -28,14 +28,16 @@ package api
 //@ trusted func (MetaStore).Get
 //@   params recv ctx metaObj txn
 //@   ensures forall i int :: 0 <= i && i < len(result0) ==> result0[i] != nil && freshRef(result0[i])
-//@   modifies nothing
+//@   ensures result0 == nil || freshRef2(result0)
+//@   modifies fresh(meta.TaskInfo.*), fresh([]*meta.TaskInfo)
 
 // the checkpoint-record instance: decoded records belong to the queried task and have their own three maps
 //@ trusted func (github.com/zilliztech/milvus-cdc/server/api.MetaStore[*github.com/zilliztech/milvus-cdc/server/model/meta.TaskCollectionPosition]).Get
 //@   params recv ctx metaObj txn
 //@   ensures forall i int :: 0 <= i && i < len(result0) ==> result0[i] != nil && freshRef(result0[i]) && (metaObj.TaskID != "" ==> result0[i].TaskID == metaObj.TaskID)
 //@   ensures forall i int :: 0 <= i && i < len(result0) ==> (result0[i].Positions == nil || (result0[i].Positions != result0[i].OpPositions && result0[i].Positions != result0[i].TargetPositions)) && (result0[i].OpPositions == nil || result0[i].OpPositions != result0[i].TargetPositions)
-//@   modifies nothing
+//@   ensures result0 == nil || freshRef2(result0)
+//@   modifies fresh(meta.TaskCollectionPosition.*), fresh([]*meta.TaskCollectionPosition), fresh(map[string]*meta.PositionInfo), fresh(meta.PositionInfo.*), fresh(commonpb.KeyDataPair.*)
 
 //@ trusted func (MetaStore).Delete
 //@   params recv ctx metaObj txn
